@@ -17,6 +17,8 @@ CONSTANTS Q,                \* capacity of the two message channels (10 in the c
           NClient, NServer, \* messages the client / the backend want to send
           Calls,            \* identifiers of shim calls
           CloseClosesChan,  \* deviation (the code before the fix): Close closes the channel SendClientMessage sends on
+          SweepDone,        \* deviation: the session table is swept of sessions whose connection is done (an open call
+                            \* of another session does it) - also when messages of the backend are still unpolled
           DrainByCount      \* deviation: a poll takes len(channel) more messages with blocking receives instead of
                             \* draining with a non-blocking select (check-then-act between concurrent polls)
 
@@ -99,6 +101,12 @@ DataGiveUp(c) ==        \* repaired design: the send also selects on done, so it
   /\ Ret(c, 400)
   /\ UNCHANGED <<tab, done, chClosed, cq, sq, sqClosed, writer, reader, nextC, nextS, backendRcvd, clientRcvd, backendSawClose, panic>>
 
+\* housekeeping on behalf of other sessions (deviation SweepDone): the entry goes as soon as the connection is done
+Sweep ==
+  /\ SweepDone /\ done /\ tab = "open"
+  /\ tab' = "deleted"
+  /\ UNCHANGED <<done, chClosed, cq, sq, sqClosed, writer, reader, call, nextC, nextS, backendRcvd, clientRcvd, backendSawClose, panic>>
+
 (* ---- poll call ---- *)
 PollStart(c) ==
   /\ call[c].pc = "idle"
@@ -172,7 +180,7 @@ K(A) == /\ A /\ UNCHANGED bFirst      \* (history variables: only BackendClose s
         /\ last' = IF JustReturned = {} THEN last
                    ELSE LET c == CHOOSE c \in JustReturned : TRUE IN <<call'[c].kind, call'[c].status>>
 Next == \/ (BackendClose /\ bFirst' = TRUE /\ UNCHANGED last)
-        \/ K(BackendSend \/ ReaderSeesDone \/ WriterStep)
+        \/ K(BackendSend \/ ReaderSeesDone \/ WriterStep \/ Sweep)
         \/ \E c \in Calls : K(DataStart(c) \/ DataLoad(c) \/ DataCheck(c) \/ DataSend(c) \/ DataGiveUp(c)
                                \/ PollStart(c) \/ PollLoad(c) \/ PollFirst(c) \/ PollDrain(c)
                                \/ CloseStart(c) \/ CloseLoad(c) \/ CloseDelete(c) \/ CloseSend(c) \/ CloseGiveUp(c) \/ CloseChan(c))
